@@ -602,16 +602,27 @@ func (e *Exec) checkAssert(c *Term, label string) {
 		for _, in := range e.Inputs {
 			e.Solver.emit(in)
 		}
+		regionText := func(kf *KnownFinding) string {
+			if kf.RegionID != "" {
+				t, ok := e.regions[kf.RegionID]
+				if !ok {
+					return "false"
+				}
+				return e.Solver.emit(t)
+			}
+			return kf.Region
+		}
 		for _, kf := range kfs {
+			rt := regionText(kf)
 			e.Solver.Push()
-			e.Solver.send("(assert " + kf.Region + ")")
+			e.Solver.send("(assert " + rt + ")")
 			if e.Solver.Check() == RSat {
 				e.reportKnown(label, kf)
 			}
 			e.Solver.Pop()
 		}
 		for _, kf := range kfs {
-			e.Solver.send("(assert (not " + kf.Region + "))")
+			e.Solver.send("(assert (not " + regionText(kf) + "))")
 		}
 	}
 	r := e.Solver.Check()
@@ -640,7 +651,7 @@ func (e *Exec) checkAssert(c *Term, label string) {
 
 func (e *Exec) reportKnown(label string, kf *KnownFinding) {
 	hr := e.H
-	key := "known:" + label + ":" + kf.Region
+	key := "known:" + label + ":" + kf.Region + kf.RegionID
 	hr.mu.Lock()
 	n := hr.violCount[key]
 	hr.violCount[key]++
@@ -745,4 +756,19 @@ func defaultSolver() string {
 
 func init() {
 	intrinsics[vrtKey("Log")] = func(e *Exec, fn *ssa.Function, a []Value) Value { return nil }
+}
+
+func init() {
+	intrinsics[vrtKey("Region")] = func(e *Exec, fn *ssa.Function, a []Value) Value {
+		id := e.concreteStr(a[1], "region id")
+		if e.regions == nil {
+			e.regions = map[string]*Term{}
+		}
+		if old, ok := e.regions[id]; ok {
+			e.regions[id] = Or(old, a[2].(*Term))
+		} else {
+			e.regions[id] = a[2].(*Term)
+		}
+		return nil
+	}
 }
